@@ -66,6 +66,14 @@ func (p *Prog) influence(fn *ssa.Function, withControl bool, seeds ...ssa.Value)
 				push(*op)
 			}
 		}
+		// the result of an unexported helper depends on the package variables its return values depend on
+		if c, ok := v.(*ssa.Call); ok {
+			if h := staticCallee(&c.Call); h != nil && h != fn && p.InModule(h) && !p.Exported(h) && len(h.Blocks) > 0 {
+				for g := range p.returnGlobals(h, withControl) {
+					res.globals[g] = true
+				}
+			}
+		}
 		if ph, ok := v.(*ssa.Phi); ok && withControl {
 			// the conditions that select among the phi's incoming edges: branches between the join's immediate dominator and the join
 			j := ph.Block()
@@ -105,6 +113,28 @@ func (p *Prog) influence(fn *ssa.Function, withControl bool, seeds ...ssa.Value)
 		}
 	}
 	return res
+}
+
+// returnGlobals: the package variables that influence the values an unexported helper returns (cached; recursion yields nothing).
+func (p *Prog) returnGlobals(h *ssa.Function, withControl bool) map[*ssa.Global]bool {
+	key := fmt.Sprintf("retglobals:%p:%v", h, withControl)
+	if v, ok := p.facts[key]; ok {
+		return v.(map[*ssa.Global]bool)
+	}
+	out := map[*ssa.Global]bool{}
+	p.facts[key] = out // in progress: a recursive helper sees the empty set
+	var seeds []ssa.Value
+	eachInstr(h, func(b *ssa.BasicBlock, in ssa.Instruction) {
+		if ret, ok := in.(*ssa.Return); ok {
+			seeds = append(seeds, ret.Results...)
+		}
+	})
+	if len(seeds) > 0 {
+		for g := range p.influence(h, withControl, seeds...).globals {
+			out[g] = true
+		}
+	}
+	return out
 }
 
 func (s inflSet) globalNames() []string {
@@ -245,6 +275,7 @@ func ruleInflCover(p *Prog, r *Report) {
 		n := p.Name(fn)
 		castFn := p.Fn("mxj.cast")
 		nCast := 0
+		seenHelper := map[*ssa.Function]bool{}
 		eachInstr(fn, func(b *ssa.BasicBlock, in ssa.Instruction) {
 			if mu, ok := in.(*ssa.MapUpdate); ok && isCastCall(mu.Value, castFn) {
 				nCast++
@@ -258,6 +289,15 @@ func ruleInflCover(p *Prog, r *Report) {
 			h := staticCallee(&c.Call)
 			if h == nil || !p.InModule(h) || p.Exported(h) || len(h.Blocks) == 0 || h == fn {
 				return
+			}
+			// or a helper of the parser that itself stores cast() results (attribute decoding moved out)
+			if !seenHelper[h] {
+				seenHelper[h] = true
+				eachInstr(h, func(b2 *ssa.BasicBlock, i2 ssa.Instruction) {
+					if mu, ok := i2.(*ssa.MapUpdate); ok && isCastCall(mu.Value, castFn) {
+						nCast++
+					}
+				})
 			}
 			for i, a := range c.Call.Args {
 				if !isCastCall(a, castFn) || i >= len(h.Params) {
@@ -458,20 +498,38 @@ func ruleInflCastFlag(p *Prog, r *Report) {
 		}
 		bad := ""
 		uses := 0
-		for _, ref := range *flag.Referrers() {
-			switch x := ref.(type) {
-			case *ssa.Call:
-				g := staticCallee(&x.Call)
-				if g == castFn || g == fn {
-					uses++
-					continue
+		// the flag may be handed on to unexported helpers of the parser (attribute decoding moved out, for instance): there, too, it
+		// may only be an argument of cast(), of the parser or of such helpers
+		var follow func(f *ssa.Function, fl *ssa.Parameter, depth int)
+		follow = func(f *ssa.Function, fl *ssa.Parameter, depth int) {
+			for _, ref := range *fl.Referrers() {
+				switch x := ref.(type) {
+				case *ssa.Call:
+					g := staticCallee(&x.Call)
+					if g == castFn || g == fn || g == f {
+						uses++
+						continue
+					}
+					if g != nil && p.InModule(g) && !p.Exported(g) && len(g.Blocks) > 0 && depth < 2 {
+						okArg := false
+						for i, a := range x.Call.Args {
+							if a == ssa.Value(fl) && i < len(g.Params) {
+								okArg = true
+								follow(g, g.Params[i], depth+1)
+							}
+						}
+						if okArg {
+							continue
+						}
+					}
+					bad = "passed to " + p.calleeName(&x.Call) + " at " + p.Pos(x.Pos())
+				case *ssa.DebugRef:
+				default:
+					bad = "used by " + ref.String() + " at " + p.Pos(ref.Pos())
 				}
-				bad = "passed to " + p.calleeName(&x.Call) + " at " + p.Pos(x.Pos())
-			case *ssa.DebugRef:
-			default:
-				bad = "used by " + ref.String() + " at " + p.Pos(ref.Pos())
 			}
 		}
+		follow(fn, flag, 0)
 		if bad == "" && uses > 0 {
 			r.OK(rule, n, "structure independent of the cast flag", p.Pos(fn.Pos()), fmt.Sprintf("the flag has %d uses, all as argument of cast() or of the recursive call", uses))
 		} else if bad != "" {
@@ -618,6 +676,66 @@ func ruleInflFilter(p *Prog, r *Report, walkers []string) {
 				}
 				bad = "used in " + x.String()
 			case *ssa.DebugRef:
+			case *ssa.Store:
+				// captured by local closures (a cell that is assigned once): what the closures do with it is judged like the walker's own uses
+				cell, isCell := x.Addr.(*ssa.Alloc)
+				okCell := isCell && x.Val == ssa.Value(sk)
+				if okCell {
+					for _, cref := range *cell.Referrers() {
+						switch y := cref.(type) {
+						case *ssa.Store:
+							if y != x {
+								okCell = false
+							}
+						case *ssa.UnOp, *ssa.DebugRef:
+						case *ssa.MakeClosure:
+							cf, _ := y.Fn.(*ssa.Function)
+							if cf == nil {
+								okCell = false
+								continue
+							}
+							for i, bnd := range y.Bindings {
+								if bnd != ssa.Value(cell) || i >= len(cf.FreeVars) {
+									continue
+								}
+								for _, fr := range *cf.FreeVars[i].Referrers() {
+									ld, isLd := fr.(*ssa.UnOp)
+									if !isLd {
+										if _, isMC := fr.(*ssa.MakeClosure); !isMC {
+											okCell = false
+										}
+										continue
+									}
+									for _, use := range *ld.Referrers() {
+										switch z := use.(type) {
+										case *ssa.Call:
+											if bi, ok := z.Call.Value.(*ssa.Builtin); ok && bi.Name() == "len" {
+												continue
+											}
+											g := staticCallee(&z.Call)
+											if g == pred || g == fn || (g != nil && p.InModule(g) && p.usesOnlyAsFilterRec(g, z, ld, pred, map[*ssa.Function]bool{fn: true})) {
+												continue
+											}
+											okCell = false
+										case *ssa.BinOp:
+											if !(isNilConst(z.X) || isNilConst(z.Y)) {
+												okCell = false
+											}
+										case *ssa.DebugRef:
+										default:
+											okCell = false
+										}
+									}
+								}
+							}
+						default:
+							okCell = false
+						}
+					}
+				}
+				if !okCell {
+					bad = "used by " + ref.String()
+				}
 			default:
 				bad = "used by " + ref.String()
 			}
@@ -859,6 +977,26 @@ func ruleInflCrumb(p *Prog, r *Report, names []string) {
 				continue
 			}
 			nMap++
+			// built afresh for every child: nothing carried over from the previous child of the same map
+			carried := ""
+			for v := range infl.values {
+				ph, ok := v.(*ssa.Phi)
+				if !ok || !isStringType(ph.Type()) {
+					continue
+				}
+				for i, pr := range ph.Block().Preds {
+					if ph.Block().Dominates(pr) && ph.Edges[i] != ssa.Value(ph) {
+						if _, isC := ph.Edges[i].(*ssa.Const); !isC {
+							carried = p.Pos(ph.Pos())
+						}
+					}
+				}
+			}
+			if carried != "" {
+				r.Bad(rule, n, "child crumb built afresh for every child", p.Pos(c.Pos()), "the path handed to a map child depends on a string carried over from the previous iteration of the loop over the children (variable at "+carried+"): the second and later children get a path that is not incoming path + '.' + their key")
+			} else {
+				r.OK(rule, n, "child crumb built afresh for every child", p.Pos(c.Pos()), "no loop-carried string in the influence set of the child's path")
+			}
 			if infl.params[key] {
 				r.Bad(rule, n, "child crumb independent of the searched key", p.Pos(c.Pos()), "the path handed to a map child is built from the searched key: children get paths through a key that is only a sibling")
 			} else if !infl.params[crumb] {
